@@ -428,6 +428,41 @@ impl Bus {
     }
 }
 
+/// Plain copy of the private control registers of a [`Bus`] (verification hook).
+#[cfg(feature = "verif-hooks")]
+#[derive(Debug, Clone, PartialEq, Eq)]
+pub struct VerifBusSnapshot {
+    pub micr: u8,
+    pub misr: u8,
+    pub ucr: u8,
+    pub usr: u8,
+    pub uart_send: u8,
+    pub uart_recv: u8,
+    pub timer_enabled: bool,
+    pub timer_div1: usize,
+    pub timer_div2: usize,
+    pub timer_div3: usize,
+}
+
+#[cfg(feature = "verif-hooks")]
+impl Bus {
+    /// Copy the private control registers.
+    pub fn verif_snapshot(&self) -> VerifBusSnapshot {
+        VerifBusSnapshot {
+            micr: self.micr.bits(),
+            misr: self.misr.bits(),
+            ucr: self.ucr.bits(),
+            usr: self.usr.bits(),
+            uart_send: self.uart_send,
+            uart_recv: self.uart_recv,
+            timer_enabled: self.int_timer.enabled,
+            timer_div1: self.int_timer.div1,
+            timer_div2: self.int_timer.div2,
+            timer_div3: self.int_timer.div3,
+        }
+    }
+}
+
 impl Ram {
     /// Initialize a new set of Ram.
     ///
